@@ -661,3 +661,37 @@ def rule_bindings(chk, P, rid, select=None, floor=900):
             r.check(not conf and not fam_bad, '%s:state->%s=%s' % (vt, fld, sym), loc,
                     '%s: handler %s bound to %s (%s)' % (vt, fld, sym, '; '.join('%s %s vs %s' % c for c in conf) or 'family %s vs %s' % (sorted(fa), sorted(fb))))
     return r
+
+
+ARCH_TOK = re.compile(r'_(sse|avx512|avx2|avx|vaes|vclmul|gfni|ni|shani|no_aesni|x4|x8|x16|x32|by\d+|t[1-4]|ifma|fma|vpclmulqdq|pclmulqdq|'
+                      r'ymm|zmm|base|arch|api\d+|gen\d|no_gfni)(?=_|$)')
+
+
+def arch_stem(sym):
+    while True:
+        s2 = ARCH_TOK.sub('', sym)
+        if s2 == sym:
+            return sym
+        sym = s2
+
+
+def rule_slot_siblings(chk, P, rid, floor=1000):
+    """the nine variant inits fill the same IMB_MGR slots; what a slot is bound to differs between them only in instruction-set tokens"""
+    r = chk.rule(rid, 'one IMB_MGR handler slot is bound, in every variant that binds it, to the same routine up to instruction-set tokens '
+                      '(or to a routine carrying the slot\'s own name): the variants are siblings of one interface', floor=floor)
+    slots = {}
+    for tu in P.variant_tus():
+        vt = tu.split('__')[0]
+        for fld, (sym, loc) in handler_assignments(P, tu).items():
+            slots.setdefault(fld, {})[vt] = (arch_stem(sym), sym, loc)
+    for fld, d in sorted(slots.items()):
+        cnt = {}
+        for st, _, _ in d.values():
+            cnt[st] = cnt.get(st, 0) + 1
+        top = max(cnt.values())
+        maj = sorted(k for k, v in cnt.items() if v == top)
+        for vt, (st, sym, loc) in sorted(d.items()):
+            ok = len(d) < 3 or len(maj) > 1 or 2 * top <= len(d) or st == maj[0] or fld in sym
+            r.check(ok, '%s:state->%s' % (vt, fld), loc,
+                    '%s binds handler slot %s to %s; %d of the %d variants bind it to %s_<arch>' % (vt, fld, sym, top, len(d), maj[0]))
+    return r
